@@ -7,6 +7,7 @@ import (
 	"fmt"
 	"os"
 	"path/filepath"
+	"regexp"
 	"sort"
 	"strconv"
 	"strings"
@@ -112,7 +113,7 @@ func U64(v uint64) string {
 	}
 	return fmt.Sprintf("(zi2 %d %d)", v>>32, v&0xffffffff)
 }
-func Nat(v int) string   { return fmt.Sprintf("%d%%nat", v) }
+func Nat(v int) string { return fmt.Sprintf("%d%%nat", v) }
 func Bool(b bool) string {
 	if b {
 		return "true"
@@ -138,6 +139,7 @@ func Str(s string) string {
 var (
 	interned    map[string]string
 	internOrder []string
+	internRef   = regexp.MustCompile(`s'(\d+)\b`)
 )
 
 // StrLit renders the literal itself (no interning).
@@ -227,11 +229,13 @@ type Run struct {
 	nontriv   int
 	Rep       Report
 	Imports   []string
+	Prefix    string // shard files are cases_<Prefix><k>.v; use distinct prefixes when one check has several Run modules
 }
 
 func NewRun(env Env, runModule string) *Run {
-	interned = map[string]string{}
-	internOrder = nil
+	if interned == nil {
+		interned = map[string]string{}
+	}
 	return &Run{Env: env, RunModule: runModule, seen: map[string]bool{}, Rep: Report{Distribution: map[string]any{}}}
 }
 
@@ -291,8 +295,18 @@ func (r *Run) Finish(rule string) error {
 		for _, im := range r.Imports {
 			sb.WriteString(im + "\n")
 		}
+		// only the interned strings this shard mentions (the intern table is shared by all runs of the process)
+		used := map[int]bool{}
+		for i := k * shardSize; i < hi; i++ {
+			for _, m := range internRef.FindAllStringSubmatch(r.coq[i], -1) {
+				n, _ := strconv.Atoi(m[1])
+				used[n] = true
+			}
+		}
 		for i, lit := range internOrder {
-			fmt.Fprintf(&sb, "Definition s'%d : string := %s.\n", i, StrLit(lit))
+			if used[i] {
+				fmt.Fprintf(&sb, "Definition s'%d : string := %s.\n", i, StrLit(lit))
+			}
 		}
 		sb.WriteString("Definition cases : list case := [\n")
 		for i := k * shardSize; i < hi; i++ {
@@ -304,7 +318,7 @@ func (r *Run) Finish(rule string) error {
 		sb.WriteString("\n].\n(* FOOTER *)\n")
 		sb.WriteString("Definition M := Eval vm_compute in mismatch_ids check_case cases.\nPrint M.\n")
 		sb.WriteString("Definition V := Eval vm_compute in mismatch_ids prop_case cases.\nPrint V.\n")
-		if err := os.WriteFile(filepath.Join(r.Env.Out, fmt.Sprintf("cases_%d.v", k)), []byte(sb.String()), 0o644); err != nil {
+		if err := os.WriteFile(filepath.Join(r.Env.Out, fmt.Sprintf("cases_%s%d.v", r.Prefix, k)), []byte(sb.String()), 0o644); err != nil {
 			return err
 		}
 	}
@@ -312,14 +326,36 @@ func (r *Run) Finish(rule string) error {
 	if err != nil {
 		return err
 	}
-	if err := os.WriteFile(filepath.Join(r.Env.Out, "cases.json"), cj, 0o644); err != nil {
+	if err := os.WriteFile(filepath.Join(r.Env.Out, "cases"+r.Prefix+".json"), cj, 0o644); err != nil {
 		return err
 	}
 	r.Rep.Evaluations = len(r.coq)
 	r.Rep.DistinctNontrivial = r.nontriv
 	r.Rep.Rule = rule
-	r.Rep.CasesFile = "cases.json"
+	r.Rep.CasesFile = "cases" + r.Prefix + ".json"
 	r.Rep.ShardSize = shardSize
+	if r.Prefix != "" {
+		// a later part of the same check: merge with what earlier parts reported
+		if old, err := os.ReadFile(filepath.Join(r.Env.Out, "impl.json")); err == nil {
+			var prev Report
+			if json.Unmarshal(old, &prev) == nil {
+				r.Rep.Evaluations += prev.Evaluations
+				r.Rep.DistinctNontrivial += prev.DistinctNontrivial
+				r.Rep.Rule = prev.Rule + " || " + r.Rep.Rule
+				r.Rep.OracleViolations = append(prev.OracleViolations, r.Rep.OracleViolations...)
+				if len(r.Rep.Samples) == 0 && len(r.js) > 0 {
+					r.Rep.Samples = append(r.Rep.Samples, r.js[0])
+				}
+				r.Rep.Samples = append(prev.Samples, r.Rep.Samples...)
+				for k, v := range prev.Distribution {
+					if _, ok := r.Rep.Distribution[k]; !ok {
+						r.Rep.Distribution[k] = v
+					}
+				}
+				r.Rep.CasesFile = prev.CasesFile
+			}
+		}
+	}
 	if len(r.Rep.Samples) == 0 {
 		for i := 0; i < len(r.js) && i < 3; i++ {
 			r.Rep.Samples = append(r.Rep.Samples, r.js[i])
